@@ -457,6 +457,8 @@ def check(run):
     n_corr = 900 if quick else 60000
     n_frag = 1500 if quick else 150000
     dom = G.value_domain(run.rng, 29)
+    verbs = [x for x in G.STRS if x.startswith(("to ", "is", "has", "can"))]
+    dom = dom + verbs + [[x] for x in verbs] + [{"a": x} for x in verbs]
 
     # ---- known findings: replay every recorded witness on the implementation
     for tag, (e1, e2, v) in WITNESSES.items():
@@ -487,6 +489,17 @@ def check(run):
 
     # ---- the property's fragment: transformer oracles + faithfulness by grouping
     groups = {}
+    # expected strings that ARE verb phrases of the description language, under every wrapper that conjugates or negates the
+    # sentence: the quoted value must come out untouched (two different expected values may never share a description)
+    for x in G.STRS:
+        for leaf in ("equal_to", "starts_with", "ends_with", "contains_string"):
+            base = (leaf, x)
+            for e in (base, ("not_", base), ("has_item", base), ("not_", ("has_item", base)), ("has_entry", "a", base),
+                      ("not_", ("has_entry", "a", base)), ("has_all_items", base), ("is_str", base), ("not_", ("is_str", base)),
+                      ("all_of", [base, ("is_str", None)]), ("not_", ("any_of", [base, ("equal_to", 1)]))):
+                run.evaluations += 1
+                run.count("fragment_expected_verb_phrase_family")
+                groups.setdefault(describe_full(e, False, False)[0], {}).setdefault(accepted(e, dom), []).append(e)
     for i in range(n_frag):
         if i % 8 == 7:
             e = gen_negated_composite(run.rng)
